@@ -133,10 +133,97 @@ func c15Errors(p *load.Prog, r *oblig.Run) {
 					bad = "the error side of the test never returns"
 				}
 			}
+			// ... and the error is looked at before anything else is evaluated: another nested Evaluate that can run
+			// after this one must lie behind the nil side of this one's error test
+			if bad == "" {
+				// nil-side edges of the tests of this error: (test block, successor index)
+				type edge struct {
+					from *ssa.BasicBlock
+					idx  int
+				}
+				var nilEdges []edge
+				for _, ref := range *errV.Referrers() {
+					if x, ok := ref.(*ssa.BinOp); ok {
+						for _, r2 := range *x.Referrers() {
+							if iff, ok := r2.(*ssa.If); ok {
+								if x.Op == token.NEQ {
+									nilEdges = append(nilEdges, edge{iff.Block(), 1})
+								} else if x.Op == token.EQL {
+									nilEdges = append(nilEdges, edge{iff.Block(), 0})
+								}
+							}
+						}
+					}
+				}
+				reach := su.ReachableBlocks(c.Block())
+				for _, c2 := range su.Calls(fn) {
+					if c2 == c {
+						continue
+					}
+					cc2 := c2.Common()
+					n2 := ""
+					if cc2.IsInvoke() {
+						n2 = cc2.Method.Name()
+					} else if cal := cc2.StaticCallee(); cal != nil && pkgPathOf(cal) == load.PkgQ {
+						n2 = cal.Name()
+					}
+					if n2 != "Evaluate" {
+						continue
+					}
+					after := false
+					if c2.Block() == c.Block() {
+						for _, ins := range c.Block().Instrs {
+							if ins == c.(ssa.Instruction) {
+								after = true
+							} else if ins == c2.(ssa.Instruction) {
+								break
+							}
+						}
+						if !after {
+							continue // c2 precedes c in the same block
+						}
+					} else if !reach[c2.Block()] {
+						continue
+					}
+					// every path from this call to c2 must take the nil side of the test: c2 is not reachable when the
+					// nil-side successors (entered only through that edge) are blocked
+					behind := false
+					if !(c2.Block() == c.Block() && after) {
+						if len(nilEdges) > 0 {
+							seen := map[*ssa.BasicBlock]bool{}
+							found := false
+							var walk func(b *ssa.BasicBlock)
+							walk = func(b *ssa.BasicBlock) {
+								for k, sx := range b.Succs {
+									blocked := false
+									for _, e := range nilEdges {
+										if e.from == b && e.idx == k {
+											blocked = true
+										}
+									}
+									if blocked || seen[sx] {
+										continue
+									}
+									seen[sx] = true
+									if sx == c2.Block() {
+										found = true
+									}
+									walk(sx)
+								}
+							}
+							walk(c.Block())
+							behind = !found
+						}
+					}
+					if !behind {
+						bad = "the nested Evaluate at " + p.Pos(c2.Pos()) + " can run before the error of this one is looked at: an error no longer cuts the evaluation short (with a variable defined in terms of itself on both sides of an operator the depth limit is then reached on every branch of a binary tree - evaluation never finishes)"
+					}
+				}
+			}
 			if bad != "" {
 				o.Fail(bad)
 			} else {
-				o.OK("the error side returns an error")
+				o.OK("the error side returns an error, and nothing else is evaluated before the error is looked at")
 			}
 		}
 	}
